@@ -623,9 +623,19 @@ func run20(r *mon.Run) {
 			if t%3 == 0 {
 				preexisting(signed)
 			}
+			inPlace := ""
+			if t%5 == 2 {
+				// signing in place: -i and -o name the same file (every second time through another spelling of its path)
+				os.WriteFile(signed, wbnBytes, 0o644)
+				inPlace = signed
+				if t%10 == 7 {
+					inPlace = filepath.Dir(signed) + "/./" + filepath.Base(signed)
+				}
+				sargs[2] = inPlace
+			}
 			sres := tool("sign-bundle", passEnv, sargs...)
 			so := "sign-sections:ok"
-			sdet := map[string]any{"tree": t, "expire": expire, "key_form": kf.form, "curve": m.key.Curve.Params().BitSize, "record_size": rs, "date": wantDate, "output": tail(sres.out)}
+			sdet := map[string]any{"tree": t, "expire": expire, "key_form": kf.form, "curve": m.key.Curve.Params().BitSize, "record_size": rs, "date": wantDate, "output": tail(sres.out), "in_place": inPlace}
 			if sres.rc != 0 {
 				so = "sign-sections:FAILED"
 				violation(key+":sign-sections", fmt.Sprintf("sign-bundle signatures-section (%s key) rejects gen-bundle's output: %s", kf.form, tail(sres.out)), sdet)
